@@ -41,7 +41,7 @@ type vCtx struct {
 var vParamSets = []rlwe.ParametersLiteral{
 	{LogN: 4, Q: []uint64{97, 193}, P: []uint64{257}, NTTFlag: true},
 	{LogN: 4, Q: []uint64{97, 12289, 193}, P: []uint64{257, 769}, NTTFlag: true},
-	{LogN: 4, Q: []uint64{97, 193}, NTTFlag: true},
+	{LogN: 4, Q: []uint64{97, 12289}, NTTFlag: true}, // 7-bit and 14-bit primes: different power-of-two digit counts
 }
 var vNativeParamSets = []rlwe.ParametersLiteral{
 	{LogN: 4, LogQ: []int{45, 35}, LogP: []int{40}, NTTFlag: true},
